@@ -21,6 +21,11 @@ Finger(r) ==
         ELSE (IF r.byname[1] # ByName(w, w.p1) THEN {<<"C12", "precedence", "enum-effect-M1", r.id>>} ELSE {})
              \cup (IF r.byname[2] # ByName(w, w.p2)
                    THEN {<<"C12", "sibling", IF DevHelperOfSibling(w) /\ r.byname[2] THEN "generated-helper-of-sibling-used-despite-enum-no" ELSE "enum-effect-M2", r.id>>} ELSE {}))
+  ELSE IF w.kind = "zeroflag" THEN
+       (IF r.gen # "ok" /\ ZeroOK(w) THEN {<<"C12", "valid-rejected", "zeroflag-witness", r.id>>}
+        ELSE IF r.gen = "ok" /\ ~ZeroOK(w) THEN {<<"C12", IF ~EffZeroConv(w) THEN "generated-method-not-using-converter-setting" ELSE "precedence", "useZeroValueOnPointerInconsistency-not-in-effect", r.id>>,
+                                               <<"C11", "pointer-to-value-generated-without-the-flag", "witness", r.id>>}
+        ELSE IF r.gen = "ok" /\ ~r.compiles THEN {<<"C01", "does-not-compile", "witness", r.id>>} ELSE {})
   ELSE IF w.kind = "emptypath" THEN
        (IF r.gen # "ok" THEN {<<"C12", "valid-rejected", "emptypath-witness", r.id>>}
         ELSE IF ~r.compiles THEN {<<"C01", "does-not-compile", "witness", r.id>>}
